@@ -193,7 +193,8 @@ def case_divconn_prim(rng):
             s.int_var(0, k - 1)
         dv = [v for v in s.variables]
         st["dv"] = dv
-        return lambda: G._division_connected(s, IntArray1D(dv), k, mk, roots=roots, allow_empty_group=allow_empty,
+        arg = IntArray1D(dv) if rng.random() < 0.5 else list(dv)
+        return lambda: G._division_connected(s, arg, k, mk, roots=roots, allow_empty_group=allow_empty,
                                              use_graph_primitive=True)
     mk = graphs.mk_graph(n, edges)
     real = graphs.capture(build)
